@@ -672,7 +672,7 @@ impl Op {
                         } else {
                             let mask = ValueU64::gen_mask(width);
                             ret.payload ^= mask;
-                            ret.payload += 1;
+                            ret.payload = ret.payload.wrapping_add(1);
                             ret.payload &= mask;
                             Value::U64(ret)
                         }
